@@ -238,7 +238,7 @@ func ParseRaceLog(text string) []RaceReport {
 		}
 		r := RaceReport{A: acc[0], B: acc[1]}
 		r.HarnessOnly = r.A.Inner == "" && r.B.Inner == ""
-		r.Hook = strings.Contains(r.A.Inner, ".Verif") || strings.Contains(r.B.Inner, ".Verif")
+		r.Hook = strings.Contains(r.A.Inner, ".Verif") || strings.Contains(r.B.Inner, ".Verif") || strings.Contains(r.A.Inner, ".verif") || strings.Contains(r.B.Inner, ".verif")
 		t := strings.TrimSpace(blk)
 		if len(t) > 5000 {
 			t = t[:5000] + "\n…"
